@@ -576,6 +576,9 @@ func CalleeFn(fns ...*ssa.Function) CallMatcher {
 			return false
 		}
 		for _, x := range fns {
+			if x == nil {
+				continue // an optional anchor that does not exist (any more)
+			}
 			if f == x || f.Origin() == x {
 				return true
 			}
